@@ -26,7 +26,7 @@ def main():
         })
     m = {
         "version": 1,
-        "setup_cmd": "python3 runner/verif.py build --all && python3 runner/verif.py selftest determinism --seeds 24",
+        "setup_cmd": "python3 runner/verif.py build --all",
         "hooks": {
             "guard": "GALOIS_VERIF",
             "enable": "-DGALOIS_VERIF on the out-of-tree compile lines of runner/build.py (together with -fsanitize=thread without the TSan runtime)",
